@@ -1,10 +1,96 @@
-/- Line-protocol driver for C05 (stub until the property's models exist). -/
+/-
+  Line-protocol driver for C05 (LAN wire layer).
+
+    md5 <hex>                                              -> <hex>
+    send <sess 0|1> <auth> <sid> <seq> <act 0|1> <pw hex> <sdu hex> <rmcpSeq>
+                                                           -> ok <datagram hex> <seq after> | <error tag> <seq after>
+    judge <auth> <sid> <seq> <pw hex> <sdu hex> <datagram hex>   (Spec.Lan.sentOk)
+                                                           -> 1 | 0
+    parse <datagram hex>                                   -> ver rsvd rmcpSeq cls auth seq sid code len payload | none
+    recv <s|i> <ignore 0|1> <datagram hex>                 -> ok <hex> | ok none | <error tag>   (model)
+    specrecv <ignore 0|1> <datagram hex>                   -> some <hex> | none                   (Spec.Lan.receive)
+    ping <rmcpSeq>                                         -> ok <hex> | <error tag>              (model)
+    specping <rmcpSeq> <tag>                               -> <hex>
+    pong <datagram hex>                                    -> ok | <error tag>                    (model)
+    ispong <datagram hex>                                  -> 1 | 0                               (Spec.Lan.isPongFormat)
+-/
 import PyIpmi.Base.Proto
-open PyIpmi.Proto
+import PyIpmi.Model.Md5
+import PyIpmi.Model.RmcpWire
+import PyIpmi.Spec.Lan
+open PyIpmi PyIpmi.Proto PyIpmi.RmcpWire
+
+def md5f : List Nat → List Nat := PyIpmi.Md5.md5
+
+def showOpt : Option (List Nat) → String
+  | none => "none"
+  | some l => toHex l
 
 def handleC05 (line : String) : String :=
   match tokens line with
-  | ["ping"] => "pong"
+  | ["md5", h] =>
+    match ofHex h with
+    | some b => toHex (md5f b)
+    | none => "bad-op"
+  | ["send", se, au, si, sq, ac, pw, sdu, rs] =>
+    match au.toNat?, si.toNat?, sq.toNat?, ofHex pw, ofHex sdu, rs.toNat? with
+    | some au, some si, some sq, some pw, some sdu, some rs =>
+      let s : Option Sess := if se == "1" then some ⟨au, si, sq, ac == "1", pw⟩ else none
+      let after := match sessAfterPack s with
+        | some s' => s'.seq
+        | none => 0
+      match sendIpmi md5f rs s sdu with
+      | .ok d => s!"ok {toHex d} {after}"
+      | e => s!"{e.tag} {after}"
+    | _, _, _, _, _, _ => "bad-op"
+  | ["judge", au, si, sq, pw, sdu, dg] =>
+    match au.toNat?, si.toNat?, sq.toNat?, ofHex pw, ofHex sdu, ofHex dg with
+    | some au, some si, some sq, some pw, some sdu, some dg =>
+      if Spec.Lan.sentOk md5f au pw si sq sdu dg then "1" else "0"
+    | _, _, _, _, _, _ => "bad-op"
+  | ["parse", dg] =>
+    match ofHex dg with
+    | some dg =>
+      match Spec.Lan.parseLan dg with
+      | some p => s!"{p.ver} {p.rsvd} {p.rmcpSeq} {p.cls} {p.auth} {p.seq} {p.sid} {showOpt p.code} {p.len} {toHex p.payload}"
+      | none => "none"
+    | none => "bad-op"
+  | ["recv", v, ig, dg] =>
+    match ofHex dg with
+    | some dg =>
+      match receiveIpmi (if v == "s" then .asShipped else .intended) (ig == "1") dg with
+      | .ok r => "ok " ++ showOpt r
+      | e => e.tag
+    | none => "bad-op"
+  | ["specrecv", ig, dg] =>
+    match ofHex dg with
+    | some dg =>
+      match Spec.Lan.receive (ig == "1") dg with
+      | some p => "some " ++ toHex p
+      | none => "none"
+    | none => "bad-op"
+  | ["ping", rs] =>
+    match rs.toNat? with
+    | some rs =>
+      match pingDatagram rs with
+      | .ok d => "ok " ++ toHex d
+      | e => e.tag
+    | none => "bad-op"
+  | ["specping", rs, tag] =>
+    match rs.toNat?, tag.toNat? with
+    | some rs, some tag => toHex (Spec.Lan.pingBytes rs tag)
+    | _, _ => "bad-op"
+  | ["pong", dg] =>
+    match ofHex dg with
+    | some dg =>
+      match receivePong dg with
+      | .ok _ => "ok"
+      | e => e.tag
+    | none => "bad-op"
+  | ["ispong", dg] =>
+    match ofHex dg with
+    | some dg => if Spec.Lan.isPongFormat dg then "1" else "0"
+    | none => "bad-op"
   | _ => "bad-op"
 
 def main : IO Unit := do
